@@ -315,12 +315,12 @@ theorem loop_faithful (cfg : Cfg) (argv : List Word) (h1 : 1 ≤ argv.length) (f
             exact ⟨_ :: us, SP.keyAlone (t := .short c) (k := Key.ofChar c) rfl hres hm hnv sp, by rw [hu, hlog]; simp⟩
         | long n =>
           obtain ⟨hty, hstr⟩ := htok
-          have hs' : ∃ key, Key.parse n = .ok key ∧ processArg cfg h key ai = .ok (h', ai', r) := by
+          have hs' : ∃ key, wordKey n = .ok key ∧ processArg cfg h key ai = .ok (h', ai', r) := by
             unfold evalSingleArgument at hs
             rw [hty] at hs
             dsimp only at hs
             rw [hstr] at hs
-            cases hk : Key.parse n with
+            cases hk : wordKey n with
             | throw e => rw [hk] at hs; cases hs
             | oob w => rw [hk] at hs; cases hs
             | ok key => rw [hk] at hs; exact ⟨key, rfl, hs⟩
